@@ -186,6 +186,46 @@ class Oracle:
 # introspection of built types
 # ------------------------------------------------------------------------------------------------
 
+QNAME_ID = 999983      # oracle id of "the atomic xs:QName accepts this text" (never an id of Oracle.pid)
+_INVOLVES_QNAME: dict = {}
+
+
+def involves_qname(t: Any) -> bool:
+    """the built type reaches the built-in xs:QName (through restrictions, list items, union members)"""
+    k = id(t)
+    if k not in _INVOLVES_QNAME or _INVOLVES_QNAME[k][0] is not t:
+        if t.name == XSD + 'QName':
+            r = True
+        elif getattr(t, 'member_types', None):
+            r = any(involves_qname(m) for m in t.member_types)
+        elif getattr(t, 'item_type', None) is not None and t.is_list() and hasattr(t, 'item_type'):
+            r = involves_qname(t.item_type)
+        elif getattr(t, 'base_type', None) is not None and t.base_type is not t and hasattr(t.base_type, 'is_simple') \
+                and t.base_type.is_simple():
+            r = involves_qname(t.base_type)
+        else:
+            r = False
+        if len(_INVOLVES_QNAME) > 20000:
+            _INVOLVES_QNAME.clear()
+        _INVOLVES_QNAME[k] = (t, r)
+    return _INVOLVES_QNAME[k][1]
+
+
+def qname_trace(t: Any, text: str) -> list:
+    """oracle entries [QNAME_ID, item, verdict] for every text that can reach the built-in xs:QName while `text` is
+    decoded by `t`: the white-space separated items of the text and the collapsed text itself"""
+    qn = t.maps.types[XSD + 'QName']
+    c = re.sub('[ \t\n\r]+', ' ', text).strip(' ')
+    out = []
+    for w in dict.fromkeys([c] + [x for x in c.split(' ') if x]):
+        try:
+            ok = not qn.decode(w, validation='lax')[1]
+        except Exception:    # noqa
+            continue
+        out.append([QNAME_ID, w, ok])
+    return out
+
+
 FN_NAMES = {'byte_validator', 'short_validator', 'int_validator', 'long_validator',
             'unsigned_byte_validator', 'unsigned_short_validator', 'unsigned_int_validator',
             'unsigned_long_validator', 'negative_int_validator', 'positive_int_validator',
@@ -205,8 +245,8 @@ def prim_of(xsd_type: Any) -> tuple[str, bool]:
     if f is getattr(helpers, 'boolean_to_python', None):
         return 'boolean', True
     if f is str:
-        if xsd_type.name in (XSD + 'QName', XSD + 'NOTATION'):
-            raise Unsupported('QName/NOTATION (namespace context)')
+        # xs:QName / xs:NOTATION: strings; the lexical check of xs:QName (qname_validator + prefix lookup) is an oracle
+        # (QNAME_ID), see type_json / qname_trace
         return 'string', True
     if f is float:
         return 'float', True
@@ -232,8 +272,8 @@ def prim_of(xsd_type: Any) -> tuple[str, bool]:
 def facet_json(f: Any) -> dict:
     from xmlschema.validators import facets as F
     if isinstance(f, (F.XsdLengthFacet, F.XsdMinLengthFacet, F.XsdMaxLengthFacet)):
-        if getattr(f.validate, '__func__', None) is F.XsdFacet.skip_validation:
-            return {'f': 'skip'}
+        # (a length-family facet that the implementation does not check -- `validate = skip_validation`, xs:QName /
+        #  xs:NOTATION -- is sent as declared: the MODEL decides where the exemption applies, `applyExempt`)
         return {'f': {F.XsdLengthFacet: 'length', F.XsdMinLengthFacet: 'minLength',
                       F.XsdMaxLengthFacet: 'maxLength'}[type(f)], 'n': f.value}
     for cls, name in ((F.XsdMinInclusiveFacet, 'minInclusive'), (F.XsdMinExclusiveFacet, 'minExclusive'),
@@ -269,13 +309,19 @@ def type_json(t: Any, oracle: Oracle, depth: int = 0) -> dict:
             oracle.wrap_float(t)
         out: dict = {'k': 'b', 'prim': prim, 'v11': v11, 'ws': t.white_space or 'preserve',
                      'pat': oracle.pid(t.patterns) if t.patterns is not None else None,
-                     'fn': None, 'facets': []}
+                     'fn': None, 'facets': [], 'lenx': t.name in (XSD + 'QName', XSD + 'NOTATION')}
         vs = list(t.validators)
         if len(vs) == 1 and not isinstance(vs[0], XsdFacet):
             name = getattr(vs[0], '__name__', '?')
-            if name == 'qname_validator' or name not in FN_NAMES:
+            if name == 'qname_validator':
+                # lexical space + prefix lookup of the atomic xs:QName: no Lean semantics, the model consumes the
+                # verdict of the built-in itself on every item (oracle id QNAME_ID); what the model decides is the
+                # structure around it (lists, length-family facets and their xs:QName exemption, enumerations, unions)
+                out['pat'] = QNAME_ID
+            elif name not in FN_NAMES:
                 raise Unsupported('validator function %s' % name)
-            out['fn'] = name
+            else:
+                out['fn'] = name
         else:
             out['facets'] = [facet_json(f) for f in vs]
         return out
